@@ -2,6 +2,7 @@
 From PV Require Import Base.Bytes Models.Partials Run.Verdict.
 
 Record case17 := {
+  files : list bytes;   (* the file tree: every file <name>.ast.json below template/page, as <name> *)
   table : list (bytes * option bytes);  (* observed Render(name) alone: Some out | None = error *)
   tname : bytes;
   req   : list bytes;
@@ -25,10 +26,13 @@ Definition res_eqb (r r' : option (list (bytes * bytes))) : bool :=
   | _, _ => false
   end.
 
-(* the property itself, executable, independent of the model *)
+(* the property itself, executable, independent of the model.  A requested partial EXISTS
+   iff the literal name T.partial/p is a file of the tree (plain set membership, nothing is
+   resolved); its content alone is what the reference engine's Render gave for that name. *)
 Definition oracle17 (c : case17) : bool :=
   let r := render_of c in
-  if forallb (fun p => match r (partial_name (tname c) p) with Some _ => true | None => false end) (req c)
+  if forallb (fun p => partial_exists (files c) (tname c) p &&
+                       match r (partial_name (tname c) p) with Some _ => true | None => false end) (req c)
   then match go c with
        | Some m =>
          forallb (fun p => opt_beqb (lookup p m) (r (partial_name (tname c) p))) (req c)
@@ -37,6 +41,14 @@ Definition oracle17 (c : case17) : bool :=
        end
   else match go c with None => go_nil_on_err c | Some _ => false end.
 
+(* M: the loop of RenderPartials over Render = exact lookup in the tree, then the content the
+   reference engine gave for that name *)
+Definition model17 (c : case17) : option (list (bytes * bytes)) :=
+  render_partials (render_lookup (files c) (render_of c)) (tname c) (req c).
+
+(* diagnostic: the requested names with "is a file of the tree" *)
+Definition exists17 (c : case17) : list (bytes * bool) :=
+  map (fun p => (partial_name (tname c) p, partial_exists (files c) (tname c) p)) (req c).
+
 Definition judge (c : case17) : nat :=
-  verdict true (oracle17 c)
-          (res_eqb (render_partials (render_of c) (tname c) (req c)) (go c)).
+  verdict true (oracle17 c) (res_eqb (model17 c) (go c)).
